@@ -591,9 +591,23 @@ import importlib, types
 ops = json.loads(sys.argv[2])
 NAMES = {"sample": "hdl21.pdk.sample_pdk.pdk", "sky130": "sky130_hdl21.pdk_logic", "gf180": "gf180_hdl21.pdk_logic", "asap7": "asap7_hdl21.pdk"}
 def get(m):
-    if m == "bogus":
-        return types.ModuleType("bogus_pdk")           # a module without compile()
+    if m.startswith("bogus"):
+        # modules the registry must refuse, one per reason: no compile(); two arguments; a wrongly typed argument; a return type
+        if m not in BOGUS:
+            mod = types.ModuleType(m + "_pdk")
+            if m == "bogus_arity":
+                def compile(src: h.Elaboratables, extra: int) -> None: raise AssertionError("a refused PDK was called")
+                mod.compile = compile
+            elif m == "bogus_argtype":
+                def compile(src: int) -> None: raise AssertionError("a refused PDK was called")
+                mod.compile = compile
+            elif m == "bogus_rettype":
+                def compile(src: h.Elaboratables) -> int: raise AssertionError("a refused PDK was called")
+                mod.compile = compile
+            BOGUS[m] = mod
+        return BOGUS[m]                                # the same module object each time it is asked for
     return importlib.import_module(NAMES[m])           # importing the package registers it: only done on demand
+BOGUS = {}
 def which(mod):
     d = mod.x.of
     return getattr(getattr(d, "module", None), "domain", None)
@@ -618,6 +632,9 @@ DOMAIN = {"sample": "sample_pdk", "sky130": "sky130", "gf180": "gf180", "asap7":
 REGNAME = {"sample": "hdl21.pdk.sample_pdk.pdk", "sky130": "sky130_hdl21.pdk_logic", "gf180": "gf180_hdl21.pdk_logic", "asap7": "asap7_hdl21.pdk"}
 
 
+BOGUS_KINDS = ["bogus", "bogus_arity", "bogus_argtype", "bogus_rettype"]
+
+
 def registry_corpus():
     """every default x every explicit target, by name and by module; no default with one / several PDKs registered"""
     pd = ["sample", "sky130", "gf180", "asap7"]
@@ -630,6 +647,14 @@ def registry_corpus():
                 ops.append({"op": "compile", "arg": {"k": "module", "m": t}})
             ops.append({"op": "compile", "arg": {"k": "none"}})
             out.append(ops)
+    # a refused registration (by each reason, through register and through compile-by-module) leaves no trace: the one valid PDK
+    # is still the default, the refused module is refused again, and alone it is no default
+    for bog in BOGUS_KINDS:
+        for how in ("register", "compile"):
+            bad = {"op": "register", "m": bog} if how == "register" else {"op": "compile", "arg": {"k": "module", "m": bog}}
+            out.append([{"op": "register", "m": "sky130"}, {"op": "compile", "arg": {"k": "none"}}, bad, {"op": "compile", "arg": {"k": "none"}}, bad,
+                        {"op": "compile", "arg": {"k": "name", "s": bog + "_pdk"}}, {"op": "compile", "arg": {"k": "none"}}])
+            out.append([bad, {"op": "compile", "arg": {"k": "none"}}, bad, {"op": "register", "m": "gf180"}, {"op": "compile", "arg": {"k": "none"}}])
     out.append([{"op": "compile", "arg": {"k": "none"}}, {"op": "register", "m": "gf180"}, {"op": "compile", "arg": {"k": "none"}}, {"op": "register", "m": "sample"},
                 {"op": "compile", "arg": {"k": "none"}}, {"op": "compile", "arg": {"k": "name", "s": "sample"}}, {"op": "compile", "arg": {"k": "module", "m": "asap7"}},
                 {"op": "compile", "arg": {"k": "name", "s": "asap7"}}, {"op": "compile", "arg": {"k": "name", "s": "nosuch"}}])
@@ -644,7 +669,7 @@ def registry_cases(rng, n):
         for _ in range(rng.randint(1, 6)):
             r = rng.random()
             if r < 0.3:
-                ops.append({"op": "register", "m": rng.choice(pd + ["bogus"])})
+                ops.append({"op": "register", "m": rng.choice(pd + BOGUS_KINDS)})
             elif r < 0.4:
                 ops.append({"op": "set_default", "m": rng.choice(pd), "by": rng.choice(["name", "module"])})
             else:
@@ -668,7 +693,7 @@ def registry_model_line(ops):
     mops = []
     for o in ops:
         if o["op"] == "register":
-            mops.append({"op": "register", "m": REGNAME.get(o["m"], o["m"]), "valid": o["m"] != "bogus"})
+            mops.append({"op": "register", "m": REGNAME.get(o["m"], o["m"]), "valid": not o["m"].startswith("bogus")})
         elif o["op"] == "set_default":
             if o.get("by") == "module":
                 mops.append({"op": "register", "m": REGNAME[o["m"]], "valid": True, "silent": True})
@@ -680,9 +705,9 @@ def registry_model_line(ops):
             elif a["k"] == "name":
                 mops.append({"op": "compile", "arg": {"k": "name", "s": REGNAME.get(a["s"], a["s"])}})
             else:
-                if a["m"] != "bogus":
+                if not a["m"].startswith("bogus"):
                     mops.append({"op": "register", "m": REGNAME[a["m"]], "valid": True, "silent": True})
-                mops.append({"op": "compile", "arg": {"k": "module", "m": REGNAME.get(a["m"], a["m"]), "valid": a["m"] != "bogus"}})
+                mops.append({"op": "compile", "arg": {"k": "module", "m": REGNAME.get(a["m"], a["m"]), "valid": not a["m"].startswith("bogus")}})
     return {"prop": "C15", "op": "registry", "registered": [], "ops": mops}, [not m.get("silent") for m in mops]
 
 
